@@ -1,9 +1,9 @@
 // Engine D harness for C03 (simple processors): the UNMODIFIED SimpleSpanProcessor / SimpleLogRecordProcessor (and the
 // SpinLockMutex they lock around exporter_->Export) under the scheduler shim.  The trace has exactly the format of the
 // C11 spin-lock harness, with the exporter call as the critical section, so the same Lean model steps it.
-//   ssp|slp <n0>[f] <n1> ... ; t<i> ; ...     n_i = number of OnEnd/OnEmit calls of thread i; suffix f on the first count =
-//   the processor is built by its factory's Create instead of the constructor.  Every second record of a thread is obtained
-//   through Processor::MakeRecordable() (and, for spans, announced with OnStart): pass-throughs that change nothing.
+//   ssp|slp <n0>[f] <n1> ... [S] ; t<i> ; ...     n_i = number of OnEnd/OnEmit calls of thread i; S = after Shutdown(); suffix
+//   f on the first count = the processor is built by its factory's Create instead of the constructor.  Every second record
+//   of a thread is obtained through Processor::MakeRecordable() (and, for spans, announced with OnStart): pass-throughs.
 #include "common.h"
 
 #define private public
@@ -98,6 +98,15 @@ static std::string handle(const std::vector<std::string> &t)
   std::vector<unsigned long> counts;
   bool by_factory = false;
   if (!ops[0][0].empty() && ops[0][0].back() == 'f') { by_factory = true; ops[0][0].pop_back(); }
+  // a trailing `S`: the processor has been shut down before the threads start (OnEnd / OnEmit after Shutdown still go
+  // through the lock and hand the record to the exporter, which may turn it away - Export is never re-entered)
+  bool pre_shutdown = false;
+  if (ops[0].back() == "S")
+  {
+    pre_shutdown = true;
+    ops[0].pop_back();
+    if (ops[0].empty()) return "bad-op";
+  }
   for (auto &c : ops[0])
   {
     char *e = nullptr;
@@ -120,6 +129,7 @@ static std::string handle(const std::vector<std::string> &t)
   auto *proc = by_factory ? static_cast<Processor *>(Factory::Create(std::unique_ptr<Exporter>(new HExporter(&xs))).release())
                           : new Processor(std::unique_ptr<Exporter>(new HExporter(&xs)));
   detsched::name_object(&proc->lock_, "flag");
+  if (pre_shutdown) proc->Shutdown();
   for (size_t p = 0; p < counts.size(); p++)
   {
     detsched::spawn([&, p] {
